@@ -1,7 +1,7 @@
 ---------------------------- MODULE CliRef ----------------------------
 (* What the command line tool must do, as functions of a scenario (C19).                      *)
 (* scenario = [opts |-> set of option names, inmode |-> "file" | "stdin" | "inline",            *)
-(*             fault |-> set of faults among "missing_file", "bad_number", "unwritable"]        *)
+(*             fault |-> set of faults among "missing_file", "bad_utf8", "bad_number", "unwritable"] *)
 EXTENDS Integers, Sequences, FiniteSets
 ValueOpts == {"background", "fill-color", "font-family", "font-size", "stroke-width", "stroke-color", "scale"}
 NumericOpts == {"font-size", "stroke-width", "scale"}
@@ -10,10 +10,15 @@ WellFormedScenario(sc) ==
   /\ sc.opts \subseteq AllOpts
   /\ (sc.inmode = "inline") <=> ("s" \in sc.opts)
   /\ ("missing_file" \in sc.fault => sc.inmode = "file")
+  /\ ("bad_utf8" \in sc.fault => sc.inmode \in {"file", "stdin"} /\ "missing_file" \notin sc.fault)   \* the input is not text
   /\ ("bad_number" \in sc.fault => sc.opts \cap NumericOpts # {})
   /\ ("unwritable" \in sc.fault => "o" \in sc.opts)
 \* the input is read first, then the numbers are parsed, then the conversion is written
-ExpectedExit(sc) == IF "missing_file" \in sc.fault \/ "bad_number" \in sc.fault THEN 1
+\* (which non-zero status a failure gets is the tool's own choice - today 1, 101 for input that is not text, 2 for an
+\* output that cannot be written; the statement only distinguishes zero from non-zero, and so does CliOK)
+ExpectedExit(sc) == IF "missing_file" \in sc.fault THEN 1
+                    ELSE IF "bad_utf8" \in sc.fault THEN 101
+                    ELSE IF "bad_number" \in sc.fault THEN 1
                     ELSE IF "unwritable" \in sc.fault THEN 2 ELSE 0
 ExpectedChannel(sc) == IF "o" \in sc.opts THEN "file" ELSE "stdout"
 \* how each option maps to the library's settings
@@ -26,7 +31,7 @@ SettingsOp(opt) == IF opt = "scale" THEN "multiply_default_8" ELSE "replace"
 \* the observation of one run satisfies the scenario
 CliOK(sc, ob) ==
   /\ WellFormedScenario(sc)
-  /\ ob.exit = ExpectedExit(sc)
+  /\ (ob.exit = 0) <=> (ExpectedExit(sc) = 0)             \* zero exactly when the requested conversion succeeded
   /\ IF ExpectedExit(sc) = 0
      THEN IF ExpectedChannel(sc) = "stdout"
           THEN ob.stdout_sha = ob.lib_nl_sha /\ ob.file_exists = 0           \* the document plus a newline
@@ -38,7 +43,7 @@ CliOK(sc, ob) ==
 \* batch mode: one document per matching file whose output can be written; a file that cannot be written is reported
 \* and makes the status non-zero, the others are still converted (b.n_blocked = matching files whose output path is taken)
 BuildOK(b, ob) ==
-  /\ ob.exit = (IF b.missing_dir = 1 \/ b.n_blocked > 0 THEN 1 ELSE 0)
+  /\ (ob.exit # 0) <=> (b.missing_dir = 1 \/ b.n_blocked > 0)        \* (which non-zero status: the tool's own choice)
   /\ (b.missing_dir = 0 => /\ ob.n_written = b.n_matching - b.n_blocked
                            /\ ob.n_correct = b.n_matching - b.n_blocked       \* each equals the library's default conversion
                            /\ ob.n_extra = 0)
